@@ -70,6 +70,33 @@ def run(ctx):
         len_ok = is_call(a[1], 'Vec::len') and s(a[1][2][0]) == s(a[2])
         dim_ok = is_call(a[0], 'AffFuncBase::indim') and a[0][2][0] == SELF
         bad_clo = [k for k, c in closures if k in ('Iterator::map', 'Iterator::filter_map') and not is_projection(F, k, c)]
+        if not ok and is_call(a[2], 'Vec::new', 'Vec::with_capacity'):
+            # the kept rows are pushed in a loop over the rows instead of being filtered by an iterator chain: every pushed value is a
+            # component selection of the loop item, at most one push per iteration, the count is the vector's length after the loop
+            els = prune.vec_elements(F, b, R, a[2]) or []
+            cfg = b.cfg()
+            pushes = [bb for bb, t in b.calls() if Callee(t['func']).name == 'push' and R.call_args(bb)[0] == a[2]]
+
+            def proj_of_item(e):
+                x = e
+                while True:
+                    if x[0] == 'field' and x[2].isdigit():
+                        x = x[1]
+                    elif x[0] == 'agg' and x[1] == 'tuple' and len(x[2]) == 2 and x[2][0][0] == 'field' and x[2][1][0] == 'field' and s(x[2][0][1]) == s(x[2][1][1]) and (x[2][0][2], x[2][1][2]) == ('0', '1'):
+                        x = x[2][0][1]
+                    else:
+                        break
+                return x if is_call(x, 'Iterator::next') else None
+            items = [proj_of_item(e) for e in els]
+            src_ok = bool(items) and all(it is not None and row_source(it[2][0])[0] for it in items)
+            if src_ok:
+                chains = [row_source(it[2][0]) for it in items]
+                bad_clo = [k for ch in chains for k, c in ch[2] if k in ('Iterator::map', 'Iterator::filter_map') and not is_projection(F, k, c)]
+                adaptors = chains[0][1] + ['push loop']
+            hdrs = [h for h in cfg.loop_headers() if isinstance(h, int) and pushes and all(p_ in cfg.loop_of(h) for p_ in pushes)]
+            once = bool(hdrs) and all(not cfg.reaches(p1, p2, avoid=[hdrs[0]]) for p1 in pushes for p2 in pushes if p1 != p2)
+            ok = src_ok and once
+            len_ok = is_call(a[1], 'Vec::len') and a[1][2][0] == a[2] and bool(hdrs) and a[1][3] not in cfg.loop_of(hdrs[0]) and cfg.dominates(hdrs[0], a[1][3])
         if ok and len_ok and dim_ok and not bad_clo:
             ctx.ok('C15.R1', site, 'rows = zip(self.mat rows, self.bias) through %s; no arithmetic on kept rows' % ' . '.join(reversed([x.split('::')[-1] for x in adaptors])), fr[0][2]['span'])
         else:
